@@ -162,7 +162,16 @@ pub fn interesting32(rng: &mut Rng) -> u32 {
         0, 1, 2, 0x7f, 0x80, 0xff, 0x100, 0x7fff, 0x8000, 0xffff, 0x10000, 0x7fffffff, 0x80000000, 0xffffffff, 0xfffffffe, 0x0fffffff,
         0x10000000, 0x0fff, 0x1000, 0x0f, 0x10, 0x11223344, 0xaabbccdd, 0x55555555, 0xaaaaaaaa, 0x00ff00ff, 0xff00ff00, 0x80808080,
     ];
-    match rng.below(6) {
+    match rng.below(7) {
+        // a constant of the emulator's current source text (or a neighbour), in the low bits or shifted up
+        6 => {
+            let v = crate::util::source_number(rng) as u32;
+            match rng.below(4) {
+                0 => v << 16,
+                1 => v << 24 | (rng.u32() & 0xffffff),
+                _ => v,
+            }
+        }
         0 => *rng.pick(&B),
         1 => (*rng.pick(&B)).wrapping_add(rng.range(0, 2) as u32).wrapping_sub(1),
         2 => 1u32 << rng.below(32),
